@@ -118,7 +118,7 @@ def exc_bucket(prefix, exc):
 # ------------------------------------------------------------------ worker
 
 def _alarm(signum, frame):
-    raise Inconclusive("per-case watchdog (120 s)")
+    raise Inconclusive("per-case watchdog")
 
 
 class Worker:
@@ -176,7 +176,7 @@ class Worker:
             saved = (collections.Counter(ctx.labels), ctx.extra_evals, ctx.extra_nontrivial)
         self.hooks.reset_case(self.numpoly)
         fails = []
-        signal.alarm(int(os.environ.get("VERIF_CASE_TIMEOUT", "90")))
+        signal.alarm(int(os.environ.get("VERIF_CASE_TIMEOUT", "30" if self.tier == "quick" else "120")))
         try:
             fails = list(self.mod.check_case(case, ctx) or [])
         except Inconclusive:
@@ -294,9 +294,12 @@ class Worker:
         calls = [0]
         worker = self
 
+        t_end = time.time() + (45 if self.tier == "quick" else 240)
+
         def pred(case):
             calls[0] += 1
-            if calls[0] > max_calls:
+            # (bounded shrinking effort: only the size of the reported example depends on it)
+            if calls[0] > max_calls or time.time() > t_end:
                 return False
             fails = worker.run_case(case, record=False)
             return any(f.bucket == bucket for f in fails)
